@@ -63,3 +63,17 @@ Theorem C17_mem_conc_totals_exact : forall n (st : mstore) (ps : list mprog) sch
   Forall counts_ok (shards (run (msem false) sched (msh_init st, map mthread_of (map (mprog_acts n) ps))).1).
 Proof. exact mem_conc_totals_exact. Qed.
 Print Assumptions C17_mem_conc_totals_exact.
+
+(* ---- memory store, the exported totals themselves (populateProm sums swarms, seeders and leechers over ALL shards): after any
+   history they are the number of tracked swarms and the seeder / leecher memberships stored, as uint64.  Rests on the home
+   invariant (every swarm lives in the shard its infohash and family select, and nowhere else). *)
+From Chihaya Require Import Proofs.MemPromP.
+Theorem C17_mem_prom_exact : forall n ops, (0 < n)%nat ->
+  mem_prom (run_mem n ops) =
+  (wrap64 (Z.of_nat (size (run_spec ops))), wrap64 (sm_total_seeders (run_spec ops)), wrap64 (sm_total_leechers (run_spec ops))).
+Proof. exact mem_prom_exact. Qed.
+Print Assumptions C17_mem_prom_exact.
+
+Theorem C17_mem_swarms_at_home : forall n ops, (0 < n)%nat -> mem_home n (run_mem n ops).
+Proof. exact home_run. Qed.
+Print Assumptions C17_mem_swarms_at_home.
